@@ -259,6 +259,7 @@ def table():
         "unquote_header_value": (lambda s: http.unquote_header_value(s), []),
         "Request": (None, request_uses()),
         "RequestBody": (None, request_uses() + body_uses()),
+        "RequestPart": (None, part_uses()),
     }
     _TABLE = T
     return T
@@ -415,6 +416,35 @@ def body_uses():
     ]
 
 
+PART_SLOTS = ["DISPOSITION", "PART_TYPE"]
+
+
+def make_part_environ(slot: str, s: str) -> dict:
+    """A multipart/form-data request with one part; the hostile text is the value of the part's Content-Disposition
+    (slot DISPOSITION) or, for a file part, of its Content-Type (slot PART_TYPE).  The text is latin-1 on the wire."""
+    v = s.encode("latin-1")
+    if slot == "DISPOSITION":
+        part = b"Content-Disposition: " + v + b"\r\nContent-Type: text/plain\r\n\r\nv\r\n"
+    elif slot == "PART_TYPE":
+        part = b'Content-Disposition: form-data; name="u"; filename="x.txt"\r\nContent-Type: ' + v + b"\r\n\r\nv\r\n"
+    else:
+        raise ValueError(slot)
+    body = b"--b\r\n" + part + b"--b--\r\n"
+    env = make_environ("CONTENT_TYPE_URL", "multipart/form-data; boundary=b")
+    env["wsgi.input"] = io.BytesIO(body)
+    env["CONTENT_LENGTH"] = str(len(body))
+    return env
+
+
+def part_uses():
+    return [
+        ("files", lambda r: r.files), ("form", lambda r: r.form), ("values", lambda r: r.values),
+        ("files.names", lambda r: [x for f in r.files.values() for x in (f.filename, f.name, f.content_type, f.mimetype)]),
+        ("files.mimetype_params", lambda r: [f.mimetype_params for f in r.files.values()]),
+        ("files.headers", lambda r: [h for f in r.files.values() for h in f.headers]),
+    ]
+
+
 def schema_lines():
     """One line per function: the recorder's position names, to be compared with the spec's."""
     out = []
@@ -454,6 +484,10 @@ def run_call(fn: str, slot: str, s: str, budget: float = BUDGET_S) -> dict:
             from werkzeug.wrappers import Request
 
             k, t_, v = _outcome(lambda: Request(make_environ(slot, s)))
+        elif fn == "RequestPart":
+            from werkzeug.wrappers import Request
+
+            k, t_, v = _outcome(lambda: Request(make_part_environ(slot, s)))
         elif fn == "RequestBody":
             from werkzeug.wrappers import Request
 
